@@ -278,7 +278,9 @@ impl FrameBuf {
 
 impl Fill for FrameBuf {
     fn fill_interleaved(&mut self, interleaved: &[i32]) -> Result<(), SourceError> {
-        if interleaved.len() > self.samples.len() {
+        // `resize(0)` leaves a buffer that can hold nothing (and has no
+        // defined channel count).
+        if self.size == 0 || interleaved.len() > self.samples.len() {
             return Err(SourceError::by_reason(SourceErrorReason::InvalidBuffer));
         }
         let stride = self.size();
@@ -290,7 +292,7 @@ impl Fill for FrameBuf {
 
     #[inline]
     fn fill_le_bytes(&mut self, bytes: &[u8], bytes_per_sample: usize) -> Result<(), SourceError> {
-        if !(1..=4).contains(&bytes_per_sample) {
+        if self.size == 0 || !(1..=4).contains(&bytes_per_sample) {
             return Err(SourceError::by_reason(SourceErrorReason::InvalidBuffer));
         }
         if bytes.len() % bytes_per_sample != 0 {
